@@ -63,7 +63,7 @@ def _sz_quantile(mw, mn, u):
 def check(rep):
     from gbigsmiles.distribution import get_distribution
 
-    coq = fw.coq_check("C09", ["SrcDist", "SrcDistLaw"])
+    coq = fw.coq_check("C09", ["SrcDist", "SrcDistLaw", "SrcDistParams"])
     quick = rep.tier == "quick"
     rnd = random.Random(rep.seed + 9)
     evaluations = 0
